@@ -46,14 +46,16 @@ def gen_call(rng, frame):
         rows = [rng.randrange(n)] * rng.randint(2, 4)
     else:
         rows = [rng.randrange(n) for _ in range(rng.randint(1, 9))]
+    for col in frame['cols']:
+        # a selection in which a plain embedding column has no vector at all has no width (outside the domain)
+        if col['stype'] == 'embedding' and all(col['cells'][i] is None for i in rows):
+            rows = rows + [next(i for i in range(n) if col['cells'][i] is not None)]
     call = {'kind': kind, 'rows': rows, 'drop_target': frame['target'] is not None and rng.random() < 0.3,
             'how': rng.choice(['iloc', 'iloc', 'fresh']), 'inject': []}
     if rng.random() < 0.45:
         for col in frame['cols']:
             if col['name'] == frame['target'] or col['stype'] not in ('categorical', 'multicategorical'):
                 continue
-            if col['stype'] == 'multicategorical' and not mg.observed_values(col):
-                continue      # empty fitted token list + unseen token: open finding, probed in extra_checks
             for k in range(len(rows)):
                 if rng.random() < 0.3:
                     if col['stype'] == 'categorical':
@@ -245,38 +247,6 @@ class C04(core.Check):
                 return core.Violation('convert/lib-eq', f'convert(df.iloc[{rows}]) != tensor_frame[{rows}] through TensorFrame.__eq__',
                                       case, True, False)
         return None
-
-    # ------------------------------------------------------------------ extra checks
-    def extra_checks(self, rng, tier, report):
-        """open finding: a multicategorical column whose FITTED token list is empty (every cell empty at
-        materialization) makes the converter raise as soon as a later frame carries a token in that column and
-        no missing cell (pandas refuses to merge the str token column on the int64 index [-1])"""
-        import pandas as pd
-        import torch_frame
-        from torch_frame.data import Dataset
-        mg.quiet()
-        fit = {'m': ['', ''], 'x': [1.0, 2.0]}
-        new = {'m': ['a', ''], 'x': [1.0, 2.0]}
-        try:
-            ds = Dataset(pd.DataFrame({'m': pd.Series(fit['m'], dtype=object), 'x': fit['x']}),
-                         {'m': torch_frame.multicategorical, 'x': torch_frame.numerical}, col_to_sep='|').materialize()
-            tf = ds.convert_to_tensor_frame(pd.DataFrame({'m': pd.Series(new['m'], dtype=object), 'x': new['x']}))
-            f = tf.feat_dict[torch_frame.multicategorical]
-            got = [f[i, 0].tolist() for i in range(2)]
-            report['extra']['multicat_empty_fit_unseen_token'] = f'encoded as {got}'
-            if got != [[], []]:
-                report['violations'].append(core.Violation(
-                    'multicat-empty-fit-unseen-token', 'unseen token under an empty fitted token list is not left out',
-                    {'fit': fit, 'convert': new, 'sep': '|'}, [[], []], got))
-        except Exception as e:   # noqa
-            report['extra']['multicat_empty_fit_unseen_token'] = f'raises {type(e).__name__}'
-            report['violations'].append(core.Violation(
-                'multicat-empty-fit-unseen-token',
-                'MultiCategoricalTensorMapper: when the fitted token list is empty (every cell of the column was empty '
-                'at materialization) the converter raises ValueError (pandas merge of a str column on the int64 index '
-                '[-1]) for a frame that carries a token and no missing cell, instead of leaving the unseen token out',
-                {'fit': fit, 'convert': new, 'sep': '|', 'col_to_stype': {'m': 'multicategorical', 'x': 'numerical'}},
-                'cells [[], []]', f'{type(e).__name__}: {str(e)[:200]}'))
 
     def nontrivial_key(self, case, real_outcome):
         if real_outcome == 'raises' or all(c == 'raises' for c in real_outcome['ok']['calls']):
